@@ -15,7 +15,7 @@ pub struct Case13 {
     pub doc: DocD,
     /// overlay layer (index, layer) or none
     pub overlay: Option<(usize, LayerD)>,
-    /// L1..L6
+    /// L1..L10
     pub law: u8,
     /// law parameters: (index, dx, dy, seed)
     pub p: (usize, i32, i32, u64),
@@ -224,6 +224,113 @@ fn run(case: &Case13) -> Option<(String, Value)> {
             }
             None
         }
+        8 => {
+            // invisible cells of alpha layers never influence the result, whatever payload (glyph, colours, other flags)
+            // they carry: every empty position of an alpha layer gets a cell flagged INVISIBLE with a random payload
+            let mut d2 = d.clone();
+            let mut touched = 0;
+            for l in d2.layers.iter_mut().filter(|l| l.alpha) {
+                for y in 0..l.h {
+                    for x in 0..l.w {
+                        if l.cells.iter().any(|c| c.x == x && c.y == y) || rng.chance(1, 3) {
+                            continue;
+                        }
+                        touched += 1;
+                        l.cells.push(CellD {
+                            x,
+                            y,
+                            ch: *rng.pick(&[0x41u32, 0x23, 0xDB, 0xDC, 0xDF, 0x20]),
+                            fg: rng.below(16) as u32,
+                            bg: rng.below(8) as u32,
+                            attr: icy_engine::attribute::INVISIBLE | if rng.chance(1, 4) { icy_engine::attribute::BOLD } else { 0 },
+                            fp: 0,
+                        });
+                    }
+                }
+            }
+            if touched == 0 {
+                return None;
+            }
+            let b2 = build(&d2, &case.overlay);
+            diff_at(&base, &b2, bb, 0, 0).and_then(|r| report("L8-invisible-cells-of-alpha-layers-carry-a-payload", format!("{touched} invisible cells given a payload"), r))
+        }
+        9 => {
+            // topmost first at half-cell level: where the topmost cell is a half block with one transparent colour, the half
+            // of the cell beneath that lies behind the topmost cell's solid half never shows
+            if case.overlay.is_some() || d.layers.iter().any(|l| l.mode != 0) {
+                return None;
+            }
+            for y in bb.1..bb.3 {
+                for x in bb.0..bb.2 {
+                    // the two topmost visible cells at this position (model walk; an opaque layer without a cell ends it)
+                    let mut found: Vec<(usize, usize)> = Vec::new();
+                    for (li, l) in d.layers.iter().enumerate().rev() {
+                        if !l.visible {
+                            continue;
+                        }
+                        let (lx, ly) = (x - l.ox, y - l.oy);
+                        if lx < 0 || ly < 0 || lx >= l.w || ly >= l.h {
+                            continue;
+                        }
+                        if let Some(ci) = l.cells.iter().rposition(|c| c.x == lx && c.y == ly) {
+                            found.push((li, ci));
+                            if found.len() == 2 {
+                                break;
+                            }
+                        } else if !l.alpha {
+                            break;
+                        }
+                    }
+                    if found.len() < 2 {
+                        continue;
+                    }
+                    let t = &d.layers[found[0].0].cells[found[0].1];
+                    let u = &d.layers[found[1].0].cells[found[1].1];
+                    let half = |ch: u32| ch == 0xDC || ch == 0xDF;
+                    if !half(t.ch) || !half(u.ch) || (t.fg == TR) == (t.bg == TR) || u.fg == TR || u.bg == TR {
+                        continue;
+                    }
+                    // which half of the position the topmost cell paints itself
+                    let solid_upper = (t.ch == 0xDF) == (t.bg == TR);
+                    // the colour slot of the cell beneath that holds that half
+                    let covered_is_fg = (u.ch == 0xDF) == solid_upper;
+                    let mut d2 = d.clone();
+                    let uc = &mut d2.layers[found[1].0].cells[found[1].1];
+                    if covered_is_fg {
+                        uc.fg = (uc.fg + 1 + rng.below(14) as u32) % 16;
+                    } else {
+                        uc.bg = (uc.bg + 1 + rng.below(6) as u32) % 8;
+                    }
+                    let b2 = build(&d2, &case.overlay);
+                    let (ca, cb) = (base.get_char((x, y)), b2.get_char((x, y)));
+                    if !same(&ca, &cb) {
+                        return Some((
+                            "stacking|L9-half-of-the-lower-cell-behind-the-solid-half-shows".into(),
+                            json!({"x": x, "y": y, "topmost_cell": format!("ch={:#x} fg={} bg={}", t.ch, t.fg, t.bg), "cell_beneath": format!("ch={:#x} fg={} bg={}", u.ch, u.fg, u.bg),
+                                   "changed": if covered_is_fg { "foreground of the cell beneath" } else { "background of the cell beneath" }, "before": describe(&ca), "after": describe(&cb)}),
+                        ));
+                    }
+                }
+            }
+            None
+        }
+        10 => {
+            // an attributes-mode layer contributes attributes only: which glyph its visible cells store is irrelevant
+            if !d.layers.iter().any(|l| l.mode == 2) {
+                return None;
+            }
+            let mut d2 = d.clone();
+            for l in d2.layers.iter_mut().filter(|l| l.mode == 2) {
+                for c in l.cells.iter_mut() {
+                    c.ch = match c.ch {
+                        0x20 | 0x00 => *rng.pick(&[0x23u32, 0x41, 0xDB]),
+                        _ => *rng.pick(&[0x20u32, 0x00, 0x42]),
+                    };
+                }
+            }
+            let b2 = build(&d2, &case.overlay);
+            diff_at(&base, &b2, bb, 0, 0).and_then(|r| report("L10-glyphs-stored-in-an-attributes-layer-matter", "glyphs of attributes-mode layers exchanged".into(), r))
+        }
         _ => {
             // absolute oracle on the fragment
             if case.overlay.is_some() || d.layers.iter().any(|l| l.mode != 0 || l.cells.iter().any(|c| c.fg == TR || c.bg == TR)) {
@@ -279,15 +386,44 @@ pub struct C13 {}
 impl C13 {
     fn case_for(&self, ctx: &Ctx, k: u64) -> Case13 {
         let mut rng = ctx.rng(k);
-        let law = 1 + (k % 7) as u8;
-        let normal_only = law == 6 || law == 7 || rng.chance(1, 3);
-        let transparent = law == 7 || (law != 6 && rng.chance(1, 2));
+        let law = 1 + (k % 10) as u8;
+        let normal_only = law == 6 || law == 7 || law == 9 || (law != 10 && rng.chance(1, 3));
+        let transparent = law == 7 || law == 9 || (law != 6 && rng.chance(1, 2));
         let mut d = DocD::single(10, 6);
         d.layers.clear();
         for _ in 0..(1 + rng.usize(5)) {
             d.layers.push(gen_layer(&mut rng, normal_only, transparent));
         }
-        let overlay = if law != 6 && law != 7 && rng.chance(1, 4) {
+        if law == 9 {
+            // half blocks over half blocks: dense, overlapping, visible alpha layers
+            for l in d.layers.iter_mut() {
+                l.visible = true;
+                l.alpha = true;
+                l.ox = rng.range(-1, 2) as i32;
+                l.oy = rng.range(-1, 2) as i32;
+                l.cells.clear();
+                for y in 0..l.h {
+                    for x in 0..l.w {
+                        if rng.chance(1, 4) {
+                            continue;
+                        }
+                        let ch = *rng.pick(&[0xDCu32, 0xDF, 0xDC, 0xDF, 0xDB, 0x41]);
+                        let (fg, bg) = match rng.usize(3) {
+                            0 => (rng.below(16) as u32, TR),
+                            1 => (TR, rng.below(8) as u32),
+                            _ => (rng.below(16) as u32, rng.below(8) as u32),
+                        };
+                        l.cells.push(CellD { x, y, ch, fg, bg, attr: 0, fp: 0 });
+                    }
+                }
+            }
+        }
+        if law == 10 && !d.layers.iter().any(|l| l.mode == 2) {
+            let i = rng.usize(d.layers.len());
+            d.layers[i].mode = 2;
+            d.layers[i].visible = true;
+        }
+        let overlay = if law != 6 && law != 7 && law != 9 && rng.chance(1, 4) {
             let mut l = gen_layer(&mut rng, true, false);
             l.alpha = true;
             l.visible = true;
@@ -342,7 +478,7 @@ impl Prop for C13 {
         "C13"
     }
     fn rule(&self) -> &'static str {
-        "stacks of 1..=5 layers (sizes 1..=12 x 1..=8, offsets -4..=6, normal/chars/attributes mode, alpha or opaque, visible or hidden, sparse content incl. transparent-colour half blocks, optional overlay) are queried with Buffer::get_char at every position of the bounding box plus a 2-cell border before and after a transformation that the stacking laws say is invisible: L1 insert an empty alpha layer at a stack index; L2 rewrite the cells of a hidden layer; L3 translate every layer and the overlay by d and query at p+d; L4 remove all layers below a visible opaque normal-mode layer and query inside its rectangle (also where the opaque layer's own cell uses the transparent colour); L5 move a layer and query positions it covers neither before nor after; L6 compare with a 15-line reference compositor on the fragment 'all layers normal mode, no transparent colours, no overlay'; L7 on normal-mode stacks with transparent-colour cells the topmost visible cell supplies the glyph and each of its own non-transparent colours. Invisible results are compared as invisible only. distinct_nontrivial = distinct (law, stack shape, parameters) instances"
+        "stacks of 1..=5 layers (sizes 1..=12 x 1..=8, offsets -4..=6, normal/chars/attributes mode, alpha or opaque, visible or hidden, sparse content incl. transparent-colour half blocks, optional overlay) are queried with Buffer::get_char at every position of the bounding box plus a 2-cell border before and after a transformation that the stacking laws say is invisible: L1 insert an empty alpha layer at a stack index; L2 rewrite the cells of a hidden layer; L3 translate every layer and the overlay by d and query at p+d; L4 remove all layers below a visible opaque normal-mode layer and query inside its rectangle (also where the opaque layer's own cell uses the transparent colour); L5 move a layer and query positions it covers neither before nor after; L6 compare with a 15-line reference compositor on the fragment 'all layers normal mode, no transparent colours, no overlay'; L7 on normal-mode stacks with transparent-colour cells the topmost visible cell supplies the glyph and each of its own non-transparent colours; L8 give the invisible cells of alpha layers a payload (glyph, colours, flags next to the INVISIBLE flag); L9 where the topmost cell is a half block (220/223) with one transparent colour above another half block, change the colour of the lower cell's half that lies behind the topmost cell's solid half; L10 exchange the glyphs stored in attributes-mode layers (blank <-> non-blank). Invisible results are compared as invisible only. distinct_nontrivial = distinct (law, stack shape, parameters) instances"
     }
     fn meta(&self, ctx: &Ctx) -> Value {
         json!({"floor_evaluations": 5000, "floor_distinct": ctx.tier.pick(5000u64, 100000u64),
